@@ -332,12 +332,52 @@ def rule_r5(ctx, rid="C03.R5") -> List[R.Inst]:
     return insts
 
 
+def rule_r6(ctx) -> List[R.Inst]:
+    """row width: every note row of a chart has as many characters as the chart type has keys"""
+    M = ctx.M
+    rid = "C03.R6"
+    wr = M.fn(S.SMMAP + ".write")
+    file = M.mods[wr.mod].rel
+    keys_defs = [n for n in walk_no_nested(wr.node) if isinstance(n, ast.Assign) and isinstance(n.targets[0], ast.Name)
+                 and n.targets[0].id == "keys"]
+    insts = []
+    if len(keys_defs) != 1:
+        return [R.undec(rid, "row-width", file, wr.node.lineno, "definition of the row width not found")]
+    v = keys_defs[0].value
+    if isinstance(v, ast.Call) and isinstance(v.func, ast.Attribute) and v.func.attr == "get_keys" and \
+            unparse(v.func.value).endswith("SMMapChartTypes") and v.args and unparse(v.args[0]) == "self.chart_type":
+        insts.append(R.ok(rid, "row-width", file, v.lineno, idiom="keys = SMMapChartTypes.get_keys(self.chart_type)"))
+    elif "column" in unparse(v):
+        insts.append(R.viol(rid, "row-width", file, v.lineno,
+                            f"the width of a note row is derived from the notes present ('{unparse(v)}'): a chart whose right-most "
+                            f"panel is unused is written with rows narrower than its chart type requires (and than its own padding rows)",
+                            construct=unparse(keys_defs[0])))
+    else:
+        insts.append(R.undec(rid, "row-width", file, v.lineno, f"row width '{unparse(v)}' not recognised"))
+    # rows and padding use that same width
+    uses = [n for n in ast.walk(wr.node) if isinstance(n, ast.Call) and isinstance(n.func, ast.Name) and n.func.id == "range" and
+            n.args and unparse(n.args[0]) == "keys"]
+    lits = [n for n in ast.walk(wr.node) if isinstance(n, ast.Constant) and isinstance(n.value, str) and set(n.value) == {"0"} and
+            len(n.value) > 1]
+    if uses and not lits:
+        insts.append(R.ok(rid, "row-construction", file, uses[0].lineno, idiom="rows are ['0'] * keys"))
+    elif lits:
+        insts.append(R.viol(rid, "row-construction", file, lits[0].lineno,
+                            f"empty measures are padded with the literal row {lits[0].value!r} whatever the key count: a 6-, 7- or 8-key "
+                            f"chart with a silent measure is written with {len(lits[0].value)}-character rows in that measure, which is "
+                            f"not a valid row for its chart type", construct=f"literal padding row {lits[0].value!r}"))
+    else:
+        insts.append(R.undec(rid, "row-construction", file, wr.node.lineno, "row construction not recognised"))
+    return insts
+
+
 SPECS = [
     RuleSpec("C03.R1", rule_r1, 22, "A1", "header tag table with inverse transforms"),
     RuleSpec("C03.R2", rule_r2, 22, "A9", "every alternative of every header element has shape '#TAG:…;'"),
     RuleSpec("C03.R3", rule_r3, 16, "A5", "times / columns / symbols enumerate the same lists in the same order; holds = head + tail"),
     RuleSpec("C03.R4", rule_r4, 2, "A5", "tempo and stop pairing: beats of a list zipped with that same list"),
     RuleSpec("C03.R5", rule_r5, 5, "A1", "per-chart header order equals the reader's positions"),
+    RuleSpec("C03.R6", rule_r6, 2, "A7", "note rows are as wide as the chart type's key count"),
 ]
 
 META = dict(
